@@ -154,7 +154,21 @@ def audit_theorems(prop_module_path, theorems):
 def run_driver(requests):
     """requests: list of JSON-able dicts; returns list of parsed responses."""
     inp = "".join(json.dumps(r, ensure_ascii=False, separators=(",", ":")) + "\n" for r in requests)
-    p = subprocess.run([DRIVER_BIN], input=inp.encode("utf-8"), capture_output=True, timeout=3600)
+    p = None
+    for attempt in range(3):
+        # another check may be relinking the driver right now: wait for the lake lock, rebuild if missing
+        with Lock("lake"):
+            if not os.path.exists(DRIVER_BIN):
+                run(["lake", "build", "driver"], cwd=LEAN, timeout=3600)
+        try:
+            p = subprocess.run([DRIVER_BIN], input=inp.encode("utf-8"), capture_output=True, timeout=3600)
+            if p.returncode == 0:
+                break
+        except (FileNotFoundError, PermissionError, OSError):
+            p = None
+        time.sleep(2)
+    if p is None:
+        return [{"driver_error": "driver binary could not be executed"} for _ in requests]
     lines = p.stdout.decode("utf-8").split("\n")
     out = []
     for k in range(len(requests)):
